@@ -112,7 +112,26 @@ def gen_polyline(rng):
         if all(V[a] == V[b] for a, b in E):
             V[E[0][1]] = [V[E[0][0]][0] + 1.0] + V[E[0][0]][1:]
     n = rng.choice([0, 1, 2, 3, 5, 8])
-    return {"kind": "polyline", "V": V, "E": E, "n": n, "pc": rng.random() < 0.3, "seed": rng.randrange(1 << 30)}
+    c = {"kind": "polyline", "V": V, "E": E, "n": n, "pc": rng.random() < 0.3, "seed": rng.randrange(1 << 30)}
+    add_scenario(rng, c, lambda V2: not E or len(E) <= 1 or any(V2[a] != V2[b] for a, b in E))
+    return c
+
+
+def add_scenario(rng, c, ok):
+    """~45 %: attributes (computed persistently, or colliding names with arbitrary values) exist on the mesh
+    before its vertices are moved to V2 and the sampler is called; the oracle and the model use the CURRENT geometry"""
+    r = rng.random()
+    if r < 0.55:
+        return
+    c["pre"] = "compute" if r < 0.85 else "junk"
+    if c["pre"] == "junk":
+        c["junk"] = {"normals": [[dy(rng), dy(rng), dy(rng)] for _ in range(3)], "scalars": [rng.randint(0, 40) / 8 for _ in range(3)]}
+    if rng.random() < 0.85:
+        for _ in range(30):
+            V2 = [p if rng.random() < 0.3 else pt3(rng) for p in c["V"]]
+            if V2 != c["V"] and ok(V2):
+                c["V2"] = V2
+                break
 
 
 def tri_degenerate(A, B, C):
@@ -145,8 +164,10 @@ def gen_surface(rng):
     rot = rng.randrange(3)
     F = [f[rot:] + f[:rot] for f in F]
     n = rng.choice([0, 1, 2, 3, 5, 8])
-    return {"kind": "surface", "V": V, "F": F, "n": n, "pc": rng.random() < 0.35, "normals": rng.random() < 0.6,
-            "seed": rng.randrange(1 << 30)}
+    c = {"kind": "surface", "V": V, "F": F, "n": n, "pc": rng.random() < 0.35, "normals": rng.random() < 0.6,
+         "seed": rng.randrange(1 << 30)}
+    add_scenario(rng, c, lambda V2: not any(tri_degenerate(V2[a], V2[b], V2[cc]) for a, b, cc in F))
+    return c
 
 
 def dyadic_param(rng, den):
@@ -605,6 +626,11 @@ def shrink(case, fails):
                         if fails(t):
                             cur, changed = t, True
                             break
+        for key in ("V2", "pre"):
+            if key in cur:
+                t = {q: v for q, v in cur.items() if q != key and not (key == "pre" and q in ("junk", "V2"))}
+                if fails(t):
+                    cur, changed = t, True
         for key in ("pc", "normals"):
             if cur.get(key):
                 t = dict(cur, **{key: False})
@@ -633,6 +659,8 @@ def klass(c, msg):
         return "as_surface/" + ("n1=n2" if c["n1"] == c["n2"] else "n1!=n2")
     if k == "polylinex":
         return "as_polyline/" + ("custom" if c["custom"] is not None else "linspace")
+    if k in ("polyline", "surface") and c.get("pre"):
+        return "%s/attributes-%s%s" % (k, c["pre"], "-moved" if c.get("V2") else "")
     return k
 
 
@@ -684,7 +712,9 @@ def run(ctx):
     quick = ctx.tier == "quick"
     rng = ctx.rng
     ctx.rule = ("cases: sphere/ball (12 radii from 0.03 to 17, n<=8), boxes of dimension 1-6 in uniform and grid mode incl. "
-                "empty boxes / bad modes / dim>3 point clouds, polylines of 0-7 edges, triangulated strips/fans/tetrahedra, "
+                "empty boxes / bad modes / dim>3 point clouds, polylines of 0-7 edges, triangulated strips/fans/tetrahedra (45 % as multi-step scenarios: face_normals/face_area/edge_length stored "
+                "on the mesh, or attributes named normals/area/length with arbitrary values, BEFORE the vertices move and the "
+                "sampler runs - checked against the current geometry), "
                 "Bezier curves of degree 0-5 and patches up to 3x3 with parameters in and outside [0,1], exports with equal "
                 "and unequal resolutions and custom positions. Non-trivial = at least one point sampled / a non-constant "
                 "net / a resolution >= 2; distinct = by canonical JSON of the request")
@@ -733,6 +763,10 @@ def run(ctx):
             ctx.count("%s radius %s 1" % (k, "<" if c["radius"] < 1 else (">" if c["radius"] > 1 else "=")))
         if k == "surfacex":
             ctx.count("as_surface n1%sn2" % ("=" if c["n1"] == c["n2"] else "!="))
+        if k in ("polyline", "surface"):
+            ctx.count("%s scenario: %s" % (k, "fresh mesh" if not c.get("pre") else
+                                           "attributes %s, then vertices %s" % ({"compute": "computed persistently", "junk": "pre-existing with arbitrary values"}[c["pre"]],
+                                                                                 "moved" if c.get("V2") else "unchanged")))
         nontrivial = (c.get("n", 1) > 0 and c.get("n1", 2) >= 2 and c.get("n2", 2) >= 2
                       and len(c.get("P", [0, 0])) >= 2 and "exc" not in o)
         ctx.case_seen(c, nontrivial=nontrivial,
